@@ -10,7 +10,7 @@ from modelx.core.errors import DeletedObjectError
 
 def swarm(rng):
     cfg = c06.swarm(rng)
-    cfg.update({"n_spaces": rng.choice([1, 2, 3]), "n_cells": rng.choice([3, 4, 5, 6]), "p_uncached": 0.0, "recalc": False,
+    cfg.update({"n_spaces": rng.choice([1, 2, 3]), "n_cells": rng.choice([3, 4, 5, 6]), "p_uncached": rng.choice([0.0, 0.0, 0.3, 0.6]), "recalc": False,
                 "p_selfrec": 0.6, "n_targets": rng.choice([1, 1, 2, 3]), "step_size": rng.choice([1, 2, 3, 4, 5, 8, 1000]),
                 "prior": rng.random() < 0.4, "n_inputs": rng.choice([0, 0, 1, 2])})
     if rng.random() < 0.4:
@@ -36,7 +36,7 @@ class C16(PropBase):
             "twice; non-trivial = the plan had at least two calc blocks; distinct = distinct event-log digest")
     tiers = {"quick": {"budget_s": 40, "timeout_s": 60}, "thorough": {"budget_s": 900, "timeout_s": 120}}
     reach_probes = ["reach/plans_checked", "reach/multi_block_plans"]
-    assumptions = ["static spaces, cached cells only (the documented scope of generate_actions)"]
+    assumptions = ["static spaces; uncached cells in the middle of chains in a part of the corpus (they hold nothing and run on every call, so the computed-once clause is asserted of cached elements only)"]
 
     def execute(self, ctx):
         if ctx.doc is None:
@@ -277,7 +277,13 @@ class C16(PropBase):
         for site in probe.LOG:
             if site[2] == 0:
                 counts[(site[0], site[1], site[3])] = counts.get((site[0], site[1], site[3]), 0) + 1
-        twice = [repr(k) for k, v in counts.items() if v > 1]
+        def cached(k):
+            # (an uncached cells runs on every call: that is what it is for)
+            import re
+            sp = mach.ref.space(re.sub(r"\[[^\]]*\]", "", k[0]))
+            c = gen.visible_cells(sp).get(k[1]) if sp is not None else None
+            return c is None or c[1].is_cached
+        twice = [repr(k) for k, v in counts.items() if v > 1 and cached(k)]
         if twice:
             raise Violation("C16/element-computed-twice", {"elements": twice[:5], "step_size": op["step_size"]})
         final = held()
